@@ -562,6 +562,36 @@ def r_reg_who(ck: Checker, rule: str = "R-REG-OWN") -> None:
         ck.incomplete(rule, None, None, f"only {n} registry stores with a value found (3 confirmed by hand)")
 
 
+def r_no_exc_local(ck: Checker) -> None:
+    """`except E as e:` deletes `e` when the handler is left; a copy of it in another local does not go away.  The traceback of the exception
+    refers to the frame, the frame to the local, the local to the exception: a reference cycle that holds `self` and everything the frame
+    can reach until the cyclic collector happens to run — nodes the program has dropped stay alive (and in the weak registry) meanwhile
+    (positive pattern: `x = e` inside a handler, x not deleted, in a function of the registry module)."""
+    n = 0
+    for m_ in (ck.repo.mod(NODE),):
+        for fn in [x for x in ast.walk(m_.tree) if isinstance(x, ast.FunctionDef)]:
+            for h in [x for x in ast.walk(fn) if isinstance(x, ast.ExceptHandler) and x.name]:
+                n += 1
+                what = f"{fn.name}: a caught exception is not kept in a local that outlives the handler (no frame <-> traceback cycle keeping nodes alive)"
+                keep = [st for st in ast.walk(h) if isinstance(st, (ast.Assign, ast.AnnAssign)) and isinstance(st.value, ast.Name) and st.value.id == h.name
+                        and isinstance(st.targets[0] if isinstance(st, ast.Assign) else st.target, ast.Name)]
+                bad = None
+                for st in keep:
+                    tgt = (st.targets[0] if isinstance(st, ast.Assign) else st.target).id  # type: ignore[union-attr]
+                    deleted = any(isinstance(d, ast.Delete) and any(isinstance(t_, ast.Name) and t_.id == tgt for t_ in d.targets) for d in ast.walk(fn))
+                    cleared = any(isinstance(d, ast.Assign) and any(isinstance(t_, ast.Name) and t_.id == tgt for t_ in d.targets) and isinstance(d.value, ast.Constant) and d.value.value is None
+                                  and d.lineno > st.lineno for d in ast.walk(fn))
+                    if not deleted and not cleared:
+                        bad = (st, tgt)
+                if bad:
+                    ck.violation("R-REG-PAIR", (m_.rel, fn.name), bad[0], what, positive=True,
+                                 construct=f"{fn.name}: `{norm(bad[0])}` — `{bad[1]}` survives the handler; frame -> {bad[1]} -> __traceback__ -> frame keeps self (and the nodes it reaches) alive after the caller has dropped them")
+                else:
+                    ck.holds("R-REG-PAIR", (m_.rel, fn.name), h, what)
+    if n == 0:
+        ck.incomplete("R-REG-PAIR", None, None, "no named exception handler found in node.py (1 confirmed by hand)")
+
+
 def r_reg_pair(ck: Checker) -> None:
     f = ck.repo.func(NODE, "ASTNode.replace")
     sem = PairSem("self")
@@ -721,9 +751,17 @@ def r_get_form(ck: Checker) -> None:
     what = "get(id, default, strict) returns the registered node iff it exists and (strict: type(node) == cls; else isinstance(node, cls)), otherwise default"
     if bad:
         unrec = [b for b in bad if b.startswith("decides on")]
-        if unrec and len(unrec) == len(bad):
+        by_name = [b for b in unrec if any(k in b for k in ("__qualname__", "__name__", "__module__"))]
+        if by_name:
+            ck.violation("R-GET-FORM", f, f.node, what, evaluations=len(leaves), positive=True,
+                         construct=f"get: the class test compares class names ({by_name[0][12:110]}): distinct classes that share a name (factory-made, re-defined) are taken for one another")
+            return_after = True
+        else:
+            return_after = False
+        if unrec and len(unrec) == len(bad) and not return_after:
             raise Unsupported(f"get: {unrec[0]}", f.node)
-        ck.violation("R-GET-FORM", f, f.node, what, evaluations=len(leaves), construct=f"get: {bad[0]}")
+        if not return_after:
+            ck.violation("R-GET-FORM", f, f.node, what, evaluations=len(leaves), construct=f"get: {bad[0]}")
     else:
         ck.holds("R-GET-FORM", f, f.node, what, evaluations=len(leaves))
     g = ck.repo.func(NODE, "ASTNode.get_any")
@@ -769,6 +807,11 @@ def run(ck: Checker) -> None:
     ck.guard("R-REG-FRESH", lambda: r_reg_fresh(ck))
     ck.guard("R-REG-PAIR", lambda: r_reg_pair(ck))
     ck.guard("R-REG-OWN", lambda: r_reg_who(ck))
+    ck.guard("R-REG-PAIR", lambda: r_no_exc_local(ck))
+    from . import templates_rules as T_
+    ck.guard("R-REINSTALL", lambda: T_.r_reinstall(ck))  # detach reaches the children the class itself declares (no accessor inherited from a base class)
+    from . import state_rules as S_
+    ck.guard("R-REG-OWN", lambda: S_.r_unstable_key(ck, "R-REG-OWN", [(NODE, "ASTNode.get"), (NODE, "ASTNode.get_any"), (NODE, "ASTNode.detach"), (NODE, "ASTNode.detach_self"), (NODE, "ASTNode.replace"), (NODE, "ASTNode.__post_init__"), (NODE, "ASTNode._deserialize"), (NODE, "ASTNode.duplicate")], "lookup answers from the registry as it is now; nothing else keeps nodes"))
     ck.guard("R-DETACH-ALL", lambda: r_detach_all(ck))
     ck.guard("R-ID-DET", lambda: r_id_det(ck))
     ck.guard("R-GET-FORM", lambda: r_get_form(ck))
